@@ -139,8 +139,8 @@ def check_scenario(prop, ops, preds, cut_at, sobs, res, meta, sid, reg_cache=Non
         if cut_at is not None and (i > cut_at or (i == cut_at and pr.cut_self)):
             # beyond the statements' territory: only the model-independent severity rule still applies
             # (fatal from calls, non-fatal from destroying operations)
-            want = 'F' if op[0] in ('call', 'callx') else 'N'
-            for (tag, sev, f, line, msg) in oobs[i].reports:
+            for ri, (tag, sev, f, line, msg) in enumerate(oobs[i].reports):
+                want = 'F' if op[0] in ('call', 'callx') and ri not in oobs[i].destr else 'N'
                 if sev != want:
                     mm = oracle.Mismatch('report.severity', {'after_cut'}, '%s report during %s (after the history left the modelled territory): %r' % (sev, op[0], msg[:100]), 'after-cut')
                     if prop in oracle.owners(mm):
@@ -355,6 +355,18 @@ def legal(meta, ops, upto=None, two_monitors=False):
                         return None
                     if p.get('se%d' % j) == 3 and (p.get('nobj') not in m.objs or m.objs[p['nobj']].kind not in 'MW' or sh['fn'] in ('gs', 'r')):
                         return None
+                    if p.get('se%d' % j) == 5 and (p.get('nobj') != op[4] or sh['fn'] == 'r'):
+                        return None
+                modes = [p.get('se%d' % j) for j in range(3)]
+                if 5 in modes and (modes.count(5) > 1 or 2 in modes or 3 in modes):
+                    return None
+                # an object that a side effect will destroy is never the target of a nested call, and the other way round
+                doomed = {e.p['nobj'] for e in m.exps.values() if not e.is_mon and any(e.p.get('se%d' % j) == 5 for j in range(3))}
+                nested_into = {e.p['nobj'] for e in m.exps.values() if not e.is_mon and any(e.p.get('se%d' % j) in (2, 3) for j in range(3))}
+                if 5 in modes and op[4] in nested_into:
+                    return None
+                if (2 in modes or 3 in modes) and p.get('nobj') in doomed:
+                    return None
                 live_slots.add(key)
                 owner[op[1]] = key
             elif k == 'mon':
@@ -395,7 +407,7 @@ def legal(meta, ops, upto=None, two_monitors=False):
                 if op[1] not in m.objs:
                     return None
                 for e in m.exps.values():
-                    if not e.is_mon and any(e.p.get('se%d' % j) in (2, 3) for j in range(3)) and e.p.get('nobj') == op[1]:
+                    if not e.is_mon and any(e.p.get('se%d' % j) in (2, 3, 5) for j in range(3)) and e.p.get('nobj') == op[1]:
                         return None
             elif k == 'rmseq' or k == 'qseq':
                 if op[1] not in m.seqs:
